@@ -225,7 +225,17 @@ func (pxy *UDPProxy) Run() (remoteAddr string, err error) {
 				})
 			}
 
-			pxy.workConn = netpkg.WrapReadWriteCloserToConn(rwc, workConn)
+			wrapped := netpkg.WrapReadWriteCloserToConn(rwc, workConn)
+			// the proxy may have been closed while this work connection was being fetched:
+			// Close() can no longer see it, so it is closed here
+			pxy.mu.Lock()
+			if pxy.isClosed {
+				pxy.mu.Unlock()
+				wrapped.Close()
+				return
+			}
+			pxy.workConn = wrapped
+			pxy.mu.Unlock()
 			ctx, cancel := context.WithCancel(context.Background())
 			go workConnReaderFn(pxy.workConn)
 			go workConnSenderFn(pxy.workConn, ctx)
@@ -255,13 +265,13 @@ func (pxy *UDPProxy) Close() {
 		pxy.isClosed = true
 
 		pxy.BaseProxy.Close()
+		// all channels only closed here; checkCloseCh first, so that the goroutine waiting on it
+		// ends instead of fetching another work connection for a closed proxy
+		close(pxy.checkCloseCh)
 		if pxy.workConn != nil {
 			pxy.workConn.Close()
 		}
 		pxy.udpConn.Close()
-
-		// all channels only closed here
-		close(pxy.checkCloseCh)
 		close(pxy.readCh)
 		close(pxy.sendCh)
 		pxy.rc.UDPPortManager.Release(pxy.realBindPort)
